@@ -322,7 +322,9 @@ func runC17s(rc *RunCtx) {
 	w := simnet.NewWorld()
 	prom := newPromMetricsWith(rc, nil)
 	m := &RecMetrics{Inner: prom}
-	keys := genKeys(G, 1+G.Draw(3), "")
+	// (one id per cipher and secret: a repeated handshake may be served under
+	// another id that has the same key material)
+	keys := uniqueCrypto(genKeys(G, 1+G.Draw(3), ""))
 	natT := []time.Duration{2 * time.Second, 20 * time.Second}[G.Draw(2)]
 	replayable := G.Draw(2) == 0 // the replay history is on: a repeated handshake is refused
 	tsrv := startTCPServer(rc, w, tcpServerOpts{Keys: keys, Timeout: time.Second, Metrics: m, Replay: map[bool]int{false: 0, true: 100}[replayable]})
